@@ -64,6 +64,7 @@ def catalogue(tier):
             ("alter_rename", f"alter table {N} rename to nope2", "missing_table"),
             ("alter_set_comment", f"alter table {N} set comment = 'c'", "missing_table"),
             ("comment_on", f"comment on table {N} is 'c'", "missing_table"),
+            ("comment_on_column", f"alter table {N} alter column a comment 'c'", "missing_table"),
             ("clone_source", f"create table {X} clone {N}", "missing_table"),
             ("describe_table", f"describe table {N}", "missing_table"),
             ("merge_target", f"merge into {N} using {U} on {N}.a = {U}.id when matched then update set {N}.a = 1", "missing_table"),
@@ -269,7 +270,10 @@ def suffix(fs, admin, conn, cur, tx):
     return None
 
 
-CLOSED_OPS = ["execute", "executemany", "commit", "rollback", "execute_string", "description", "execute_on_old_cursor"]
+CLOSED_OPS = [
+    "execute", "executemany", "commit", "rollback", "execute_string", "description", "execute_on_old_cursor",
+    "execute_multi_step_create", "execute_merge", "execute_comment", "execute_set", "execute_unset", "execute_use", "execute_nop_like",
+]
 
 
 def closed_case(op, acc: core.Acc, tier):
@@ -281,6 +285,7 @@ def closed_case(op, acc: core.Acc, tier):
         conn = fs.connect(database="db1", schema="s1")
         old = conn.cursor()
         old.execute("create table t (a int)")
+        old.execute("set before_close = 1")
         old.execute("select 1")
         conn.close()
         try:
@@ -298,6 +303,20 @@ def closed_case(op, acc: core.Acc, tier):
                 _ = old.description
             elif op == "execute_on_old_cursor":
                 old.execute("select 1")
+            elif op == "execute_multi_step_create":
+                conn.cursor().execute("create table tt (name varchar(10)) comment = 'c'")
+            elif op == "execute_merge":
+                conn.cursor().execute("merge into t using (select 1 as a) s on t.a = s.a when not matched then insert (a) values (s.a)")
+            elif op == "execute_comment":
+                conn.cursor().execute("comment on table t is 'c'")
+            elif op == "execute_set":
+                conn.cursor().execute("set closed_var = 1")
+            elif op == "execute_unset":
+                old.execute("unset before_close")
+            elif op == "execute_use":
+                conn.cursor().execute("use schema s1")
+            elif op == "execute_nop_like":
+                conn.cursor().execute("alter table t set tag k = 'v'")
             got = ("ok",)
         except Exception as e:  # noqa: BLE001
             got = exc_info(e)
